@@ -264,8 +264,17 @@ impl World {
         // (2) every worker outside try_terminate is accounted for in `working`
         if self.sim.mutex_is_free(self.lock_obj) {
             let (working, awakening) = self.terminator.verif_peek();
+            // (2b) bookkeeping invariant of the detector itself (stricter than the property, see
+            // SCHED_REPORT.md): once termination has been declared no worker is counted as working
+            // or as "notified but not yet resumed" — otherwise completion was declared while the
+            // detector still expected somebody to resume
+            if p.terminated.iter().any(|t| *t) && (working != 0 || awakening != 0) {
+                drop(p);
+                self.sim.fail("terminated-with-wake-up-in-flight", format!("try_terminate returned true but the detector's counters are working={working}, awakening={awakening} (a notified worker has not resumed yet / a worker is still counted as working)"));
+                return;
+            }
             let active = (0..self.script.workers).filter(|w| !p.in_tt[*w] && !p.terminated[*w]).count();
-            if working + awakening < active && !p.terminated.iter().any(|t| *t) {
+            if working < active && !p.terminated.iter().any(|t| *t) {
                 drop(p);
                 self.sim.fail("terminator-undercount", format!("{active} workers are outside try_terminate but working={working}, awakening={awakening}"));
                 return;
